@@ -181,16 +181,26 @@ impl Embeddings {
     pub fn list(tier: &str, inp: &LInput, seed: u64, idx: usize) -> Vec<Embedding> {
         // exact-snapping embedding first (power-of-two scale, zero offset), then "generic" ones
         let gmax = inp.g.iter().take(inp.dim).cloned().max().unwrap_or(1) as f64;
+        // Largest scale: 2e14 / G in 3D.  In 1D/2D the unused axes are a slab of UNIT thickness whatever the scale of the
+        // active axes: once ulp(coordinate) is no longer negligible against 1, face polygons (length x 1) are tilted by the
+        // rounding noise of their vertices and areas are off by (ulp/1)^2 (4e-4 at 1e14; the harness' own integrator
+        // degrades in the same way).  That is conditioning, not a wrong transition: 1D/2D inputs stay below 1e9.
+        let big = if inp.dim == 3 { 2e14 / gmax } else { 2f64.powi(28) / gmax };
         let mut v = vec![
             Embedding::new(1.0, [0.0; 3]),
             Embedding::new(0.1, [-17.25, 3.5, 0.7]),
             Embedding::new(7.3, [1000.0, -1000.0, 250.0]),
+            // tiny absolute scale (a power of two: the result must be the exactly rescaled one): absolute thresholds
+            // such as `area > f64::EPSILON` only show when measures are far below 1 in the user's units
+            Embedding::new(2f64.powi(-40), [0.0; 3]),
         ];
         if tier == "thorough" {
+            v.push(Embedding::new(1e-9, [0.0; 3]));
+            v.push(Embedding::new(if inp.dim == 3 { 2f64.powi(40) } else { 2f64.powi(24) }, [0.0; 3]));
             v.push(Embedding::new(0.125, [0.0; 3]));
             v.push(Embedding::new(1e-6, [0.0, 1e-3, -1e-3]));
             v.push(Embedding::new(1e6, [-1e6, 0.0, 5e5]));
-            v.push(Embedding::new(2e14 / gmax, [0.0; 3]));
+            v.push(Embedding::new(big, [0.0; 3]));
             v.push(Embedding::new(1.0, [1e6, -1e6, 1e6]));
             v.push(Embedding::new(1.0 / 3.0, [1.0 / 7.0, 0.3, -0.9]));
         } else {
@@ -200,6 +210,8 @@ impl Embeddings {
                 Embedding::new(1e6, [-1e6, 0.0, 5e5]),
                 Embedding::new(1.0, [1e6, -1e6, 1e6]),
                 Embedding::new(1.0 / 3.0, [1.0 / 7.0, 0.3, -0.9]),
+                Embedding::new(1e-9, [0.0; 3]),
+                Embedding::new(big, [0.0; 3]),
             ];
             // chosen by a hash of the input so that the choice does not depend on the order in
             // which TLC happened to print the cases
@@ -276,7 +288,9 @@ fn compare(
     let width = emb.width(inp);
     let gens = emb.generators(inp);
     // measure tolerances
-    let tol_area = 20.0 * tl * scale.powi(d - 2).max(tl.powi(d - 2).min(1.0));
+    // faces are (d-1)-dimensional in the active subspace times unit thickness on the unused axes: a 1D face is the unit
+    // square (tolerance relative to 1), a 2D face a segment x 1, a 3D face a polygon
+    let tol_area = if d == 1 { 20.0 * (tl / scale) } else { 20.0 * tl * scale.powi(d - 2) };
     let tol_vol = 50.0 * tl * scale.powi(d - 1);
     let (vor, integ) = match (&obs.vor, &obs.integ) {
         (Ok(v), Ok(i)) => (v, i),
@@ -634,7 +648,9 @@ fn periodic_relations(inp: &LInput, emb: &Embedding, obs: &Observed, seed: u64, 
     let tl = emb.tol_len(inp);
     let scale = emb.scale(inp);
     let d = inp.dim as i32;
-    let tol_area = 20.0 * tl * scale.powi(d - 2).max(tl.powi(d - 2).min(1.0));
+    // faces are (d-1)-dimensional in the active subspace times unit thickness on the unused axes: a 1D face is the unit
+    // square (tolerance relative to 1), a 2D face a segment x 1, a 3D face a polygon
+    let tol_area = if d == 1 { 20.0 * (tl / scale) } else { 20.0 * tl * scale.powi(d - 2) };
     let tol_vol = 50.0 * tl * scale.powi(d - 1);
     let dim = inp.dimensionality();
     // ---- replicated reflective run
